@@ -34,6 +34,12 @@ fn echo(req: &Request) -> String {
     s.push_str(&format!("p={}\n", hexs(req.path.str().as_bytes())));
     s.push_str(&format!("a={}\n", req.path.params().map(|p| hexs(p.as_bytes())).collect::<Vec<_>>().join(",")));
     s.push_str(&format!("q={}\n", req.query.iter().map(|(k, v)| format!("{}={}", hexs(k.as_bytes()), hexs(v.as_bytes()))).collect::<Vec<_>>().join("&")));
+    // the typed view of the same query (what `Query<T>` hands to a handler): strict where the iterator is lenient, so stale or foreign bytes
+    // behind `req.query` show up as an error or as other pairs even when they contain no `=`
+    s.push_str(&format!("qp={}\n", match req.query.parse::<std::collections::BTreeMap<String, String>>() {
+        Ok(m) => m.iter().map(|(k, v)| format!("{}={}", hexs(k.as_bytes()), hexs(v.as_bytes()))).collect::<Vec<_>>().join("&"),
+        Err(_) => "ERR".into(),
+    }));
     for n in PROBES {
         s.push_str(&format!("h:{}={}\n", n, req.headers.get(n).map(|v| hexs(v.as_bytes())).unwrap_or_else(|| "-".into())));
     }
@@ -75,6 +81,8 @@ pub fn expected_echo(r: &RefReq) -> Option<String> {
     s.push_str(&format!("p={}\n", hexs(if path.is_empty() { "/" } else { path }.as_bytes())));
     s.push_str(&format!("a={}\n", param.map(|p| hexs(p.as_bytes())).unwrap_or_default()));
     s.push_str(&format!("q={}\n", q.iter().map(|(k, v)| format!("{}={}", hexs(k.as_bytes()), hexs(v.as_bytes()))).collect::<Vec<_>>().join("&")));
+    let qm: std::collections::BTreeMap<String, String> = q.iter().cloned().collect();
+    s.push_str(&format!("qp={}\n", qm.iter().map(|(k, v)| format!("{}={}", hexs(k.as_bytes()), hexs(v.as_bytes()))).collect::<Vec<_>>().join("&")));
     for n in PROBES {
         s.push_str(&format!("h:{}={}\n", n, r.header(n).map(|v| hexs(v.as_bytes())).unwrap_or_else(|| "-".into())));
     }
